@@ -87,6 +87,7 @@ def run(ctx, rep):
     m7(F, rep)
     m8(F, rep)
     m10(F, rep)
+    m12(F, rep)
     # M5: the parameters the analysis predicted with are the ones reconstruction reads back: every header field fits its width
     # (a truncated field is "accepted and then reconstructed differently"); same rule as C08/P3
     from . import ub
@@ -188,6 +189,39 @@ def m10(F, rep, rule="M10"):
     ds = [flow.describe(b, t["args"][3], names=True) if len(t["args"]) == 4 else "?" for bb, t in calls]
     ok = bool(calls) and all(any(re.match(f, d) for f in forms) for d in ds)
     rep.add(rule, "last-block-flag=final-element", ok, where, "predict_block(.., last_block = %s)" % ds)
+
+
+def m12(F, rep, rule="M12"):
+    """The per-block symbol histogram drives the predicted Huffman header on both sides; the analysis fills it while parsing,
+    the reconstruction while re-predicting.  Both get the same histogram only because an entry is a function of the token
+    alone: literal -> its byte, reference -> 257 + quantize_length(len) and quantize_distance(dist) of the very len / dist
+    stored in the token.  An index taken from anywhere else (the symbol the parser happened to decode, a flag) makes the two
+    sides count differently for non-canonical encodings.  ⚠ enumerated index forms."""
+    LIT = [r"^arg<u8>(#0)?$", r"^Add\(K257, (preflate_rs::)?preflate_constants::quantize_length\(arg<u32>#0\)\)(\.0)?$",
+           r"^Add\((preflate_rs::)?preflate_constants::quantize_length\(arg<u32>#0\), K257\)(\.0)?$", r"^K256$"]
+    DIST = [r"^(preflate_rs::)?preflate_constants::quantize_distance\(arg<u32>#1\)$"]
+    n = 0
+    for name, b in sorted(F.bodies.items()):
+        if not name.startswith("preflate_rs::") and not name.startswith("<preflate_rs::"):
+            continue
+        for bb in sorted(b.normal_blocks()):
+            for s in b.stmts(bb):
+                if s["k"] != "assign":
+                    continue
+                pp = s["p"]["p"]
+                fl = [e.get("n") for e in pp if isinstance(e, dict) and "n" in e]
+                ix = [e["i"] for e in pp if isinstance(e, dict) and "i" in e]
+                kx = [e for e in pp if isinstance(e, dict) and "ci" in e]
+                which = "literal_codes" if "literal_codes" in fl else ("distance_codes" if "distance_codes" in fl else None)
+                if which is None or "freq" not in fl and not b.local_ty(s["p"]["l"]).endswith("TokenFrequency"):
+                    continue
+                if not ix:
+                    continue            # constant index (the end-of-block entry of the default histogram)
+                n += 1
+                d = flow.describe(b, {"c": {"l": ix[0], "p": []}})
+                ok = any(re.match(f, d) for f in (LIT if which == "literal_codes" else DIST))
+                rep.add(rule, "histogram-index-from-token:%s:%s" % (name.replace("preflate_rs::", ""), which), ok, b.where(bb), "%s[%s]" % (which, d))
+    rep.floor(rule, "histogram-updates", n, 3)
 
 
 def _m2_m3(F, rep):
